@@ -441,6 +441,44 @@ def run(seed, tier, budget_s):
                 plans.append(with_ranges(b, 0, [pr], nxt()))
                 sweep_ranges += 1
 
+    # ---- stage 3a: in-range matches that cross a flow boundary (start in the
+    #      main text, end in footnote/caption text that was moved to the end:
+    #      the end then maps to an EARLIER LaTeX position than the start)
+    cross_flow = 0
+    for si in range(1 if quick else 4):
+        srng = core.run_rng(seed, PID, 'crossflow', si)
+        for mode in (['html', modes[si % 5]] if quick else modes):
+            W = docgen.Words(srng)
+            frags = [docgen.f_plain(srng, W, {}), docgen.f_footnote(srng, W, {}),
+                     docgen.f_plain(srng, W, {}), docgen.f_caption(srng, W, {}),
+                     docgen.f_plain(srng, W, {})]
+            srng.shuffle(frags)
+            b = {'kind': 'shell', 'mode': mode, 'ml': False, 'lang': 'en-GB',
+                 'names': ['flow.tex'], 'transport': 'run',
+                 'argv': ['--lt-command', 'simlt', '--language', 'en-GB',
+                          '--output', mode, 'flow.tex'],
+                 'files': {'flow.tex': {'frags': frags}},
+                 'peer': {'targets': [], 'dup': [], 'nonascii': True},
+                 '_want_subs': True}
+            r = evaluate(b)
+            if r['verdict'] != 'ok' or not r.get('subs'):
+                continue
+            text = r['subs'][0][0]
+            pairs = []
+            for fr in frags:
+                for w in fr.get('flow_words', [])[:1]:
+                    bnd = text.find(w)
+                    if bnd < 0:
+                        continue
+                    for o in range(max(0, bnd - 24), bnd, 2):
+                        for e in range(bnd, min(len(text), bnd + 12), 2):
+                            pairs.append([o, e - o + 1])
+            if quick:
+                pairs = srng.sample(pairs, min(len(pairs), 120))
+            for pr in pairs:
+                plans.append(with_ranges(b, 0, [pr], nxt()))
+                cross_flow += 1
+
     # ---- stage 3b: offsets around the end of each part, at every invocation
     #      of the multi-part bases (in range of the accumulated text, out of
     #      range of the part, and just beyond everything)
@@ -457,7 +495,7 @@ def run(seed, tier, budget_s):
                     total - before + 1, before, before + n, total - 1, total,
                     total + 1}
             for o in sorted(x for x in offs if x >= 0):
-                for l in (0, 1, 4):
+                for l in (0, 1, 4, 9):
                     plans.append(with_ranges(b, k, [[o, l]], nxt()))
                     boundary_cases += 1
 
@@ -518,6 +556,7 @@ def run(seed, tier, budget_s):
              'complete_single_fault_sweeps': complete_sweeps,
              'range_sweep_cases': sweep_ranges,
              'part_boundary_offset_cases': boundary_cases,
+             'cross_flow_range_cases': cross_flow,
              'multi_fault_cases': n_multi if usable else 0}
     return core.finish(__import__('sim.scen_c15', fromlist=['x']), batch, rule,
                        assumptions, components, extra,
